@@ -9,5 +9,5 @@ rows = {json.loads(l)['id']: json.loads(l) for l in open(sys.argv[1])}
 print(ms.materialise(rows[int(sys.argv[2])]))
 PY
 )
-for p in ${@:-all}; do MIROS_VERIF_OUT=$D/out MIROS_VERIF_NO_SELFTEST=1 /verif/check $p --tier quick --repo $D 2>&1 | grep -E "FINDING|VIOLATION|ANALYSIS-ERROR|^      " | grep -v KNOWN | cut -c1-400; done
+for p in ${@:-all}; do MIROS_VERIF_OUT=$D/out MIROS_VERIF_NO_SELFTEST=1 /verif/check $p --tier quick --repo $D 2>&1 | grep -E "FINDING|VIOLATION|ANALYSIS-ERROR|^      |Error|File " | grep -v KNOWN | cut -c1-400; done
 rm -rf $D
